@@ -104,6 +104,8 @@ func (t *Term) String() string {
 		return t.K + "(" + sv(t.Val) + "){" + ss(t.S) + "}(" + t.A.String() + ")"
 	case "combine":
 		return "combine(" + t.A.String() + ", " + t.B.String() + ")"
+	case "twice":
+		return "twice(" + t.A.String() + ")"
 	case "for":
 		return "for[" + sc(t.Cond) + "|" + ss(t.Post) + "](" + t.A.String() + ")"
 	case "while":
@@ -270,6 +272,11 @@ func (e *env) build(t *Term) seq.Seq[int] {
 		a := e.build(t.A)
 		b := e.build(t.B)
 		return seq.Combine(a, b)
+	case "twice":
+		// ONE Seq value at two places of a term (x := ..; Combine(x, x)): a Seq is a description, running it twice in one
+		// coroutine must behave like running two copies
+		a := e.build(t.A)
+		return seq.Combine(a, a)
 	case "for":
 		var cond func() bool
 		if t.Cond != nil {
@@ -325,6 +332,9 @@ func (e *env) rbuild(t *Term) *rterm {
 	case "combine":
 		r.a = e.rbuild(t.A)
 		r.b = e.rbuild(t.B)
+	case "twice":
+		r.a = e.rbuild(t.A)
+		r.b = r.a
 	case "for", "while", "loop":
 		r.a = e.rbuild(t.A)
 	}
@@ -366,7 +376,7 @@ func (e *env) rrun(r *rterm, y func(int) int) (sig, int) {
 		e.log("recv=%d", got)
 		e.script("k", t.S)
 		return e.rrun(e.rbuild(t.A), y)
-	case "combine":
+	case "combine", "twice":
 		s, v := e.rrun(r.a, y)
 		if s != sNormal {
 			e.sigCross = true
